@@ -19,7 +19,8 @@ from vlib.proto import C, T, is_c, is_t, show, subterms
 from vlib.front import unparse, dotted, const_value, AnchorMissing
 
 TR = 'phylib/io/traces.py'
-FLOOR = 13
+FLOOR = 8          # decided obligations below this = the analysis lost its footing (exit 2); clean tree: 22
+RULES = ('C02.H1', 'C02.M1', 'C02.P2', 'C02.T1', 'C02.T2', 'C02.T3', 'C02.T4')          # every obligation group must report (holds / violated / undecided): a group that vanishes silently is an analysis error
 REQUIRED = ['pos', 'neg', 'add', 'radd', 'sub', 'rsub', 'mul', 'rmul', 'truediv', 'rtruediv', 'floordiv', 'rfloordiv', 'pow', 'rpow']
 ELEMENTWISE = set(REQUIRED) | {'div', 'rdiv', 'mod', 'rmod', 'abs', 'invert', 'and', 'rand', 'or', 'ror', 'xor', 'rxor',
                                'lshift', 'rlshift', 'rshift', 'rrshift', 'lt', 'le', 'gt', 'ge', 'eq', 'ne'}
